@@ -136,8 +136,9 @@ impl AtomicBool {
         self.inner.load(o)
     }
     pub fn store(&self, v: bool, o: Ordering) {
+        // shadow copy after the operation: loom may switch threads at the operation, not after it
+        self.inner.store(v, o);
         unsafe { *self.shadow.get() = v };
-        self.inner.store(v, o)
     }
     pub fn get_mut(&mut self) -> &mut bool {
         self.shadow.get_mut()
@@ -208,8 +209,8 @@ impl<T> AtomicPtr<T> {
         self.shadow.get_mut()
     }
     pub fn store(&self, p: *mut T, o: Ordering) {
+        self.inner.store(p, o);
         unsafe { *self.shadow.get() = p };
-        self.inner.store(p, o)
     }
     pub fn swap(&self, p: *mut T, o: Ordering) -> *mut T {
         let r = self.inner.swap(p, o);
